@@ -1,5 +1,6 @@
 import Andes.Model.Hex
 import Andes.Model.TdsDriver
+import Andes.Model.ExprDriver
 import Andes.Model.IslandDriver
 import Andes.Model.SolverCacheDriver
 import Andes.Model.DiscreteDriver
@@ -17,6 +18,7 @@ def handle (line : String) : String :=
   | "disc" :: op :: args => Andes.Discrete.handleDisc op args
   | "slv" :: args => Andes.SolverCache.handleSlv args | "pfs" :: args => Andes.SolverCache.handlePfs args | "tdi" :: args => Andes.SolverCache.handleTdi args
   | "island" :: args => Andes.Island.handleIsland args
+  | "ev" :: args => Andes.Expr.handleEv args
   | _ => "bad-op"
 
 partial def loop (h : IO.FS.Stream) : IO Unit := do
